@@ -720,6 +720,13 @@ func VerifNewWorld(op string) (*VerifWorld, string) {
 	cfg.DataDir = filepath.Join(dir, "data")
 	cfg.RPCEnabled = false
 	cfg.DHTEnabled = false
+	if m["dht"] == "1" {
+		// a real DHT node on loopback with no bootstrap nodes: nothing leaves the machine
+		cfg.DHTEnabled = true
+		cfg.DHTHost = "127.0.0.1"
+		cfg.DHTPort = 0
+		cfg.DHTBootstrapNodes = nil
+	}
 	cfg.PEXEnabled = m["pex"] != "0"
 	cfg.CustomStorage = w.sto
 	cfg.ResumeOnStartup = false
@@ -1215,6 +1222,9 @@ func (w *VerifWorld) observe() string {
 	fmt.Fprintf(&sb, " open=%d", w.sto.opened-w.sto.closed)
 	w.sto.mu.Unlock()
 	fmt.Fprintf(&sb, " workers=%s", verifJoin(w.workers()))
+	if t.session.dht != nil {
+		fmt.Fprintf(&sb, " dhtann=%d", map[bool]int{true: 1, false: 0}[t.dhtAnnouncer != nil])
+	}
 	fmt.Fprintf(&sb, " susp=%d", map[bool]int{true: 1, false: 0}[t.pieceMessagesC.VerifSuspended()])
 	if t.session.ram != nil {
 		rs := t.session.ram.Stats()
